@@ -173,8 +173,6 @@ class PkgSpecRunner:
         self.it = it = Interp(src)
         it.max_steps = 2_000_000
         it.opaque_calls["Version"] = self._version
-        it.opaque_calls["re.Pattern"] = None
-        self._patch_re()
         self.mod = it.module("dep_logic.specifiers")
         if "_from_pkg_specifier" not in self.mod.ns:
             raise AnalysisError("anchor dep_logic.specifiers:_from_pkg_specifier missing")
@@ -189,33 +187,6 @@ class PkgSpecRunner:
         if vkey(text) is None:
             raise PyRaise(BuiltinExcValue(EXC["InvalidVersion"], (text,)))
         return VText(text)
-
-    def _patch_re(self):
-        """stdlib `re` on the repo's own pattern literals is constant folding of a pure primitive."""
-        import re as _re
-        it = self.it
-        stubs = it.ext_module("re")
-
-        class Pat:
-            def __init__(self, p, flags=0):
-                self.p = _re.compile(p, flags)
-
-        def compile_(p, flags=0):
-            return Pat(p, flags)
-        stubs["compile"] = compile_
-        orig_getattr = it.getattr
-
-        def getattr_(obj, attr, n=None, m=None):
-            if isinstance(obj, Pat):
-                if attr in ("search", "match", "fullmatch"):
-                    return lambda s, _a=attr: getattr(obj.p, _a)(s)
-                raise AnalysisError(f"re.Pattern.{attr}")
-            if isinstance(obj, _re.Match):
-                if attr in ("groups", "group", "groupdict"):
-                    return getattr(obj, attr)
-                raise AnalysisError(f"re.Match.{attr}")
-            return orig_getattr(obj, attr, n, m)
-        it.getattr = getattr_
 
     def run(self, op, text):
         it = self.it
